@@ -326,6 +326,20 @@ def run_case(case, rec, mon=None):
                     mon.v("pytorch_preemphasize(%s len %d, coeff %r) differs from the recurrence" % (dt, n, coeff), check="torch_preemph", op="torch_preemph", shape=[n], coeff=coeff)
                 if n >= 2:
                     rec.nt(("torch_preemph", str(dt), n, coeff, j))
+            # integer tensors: whether the result is cast back is not stated for the torch function; whatever the policy,
+            # it is the recurrence to within one unit of the integer type
+            if n:
+                xi = torch.tensor(np.round(x * 300).astype(np.int64)).to([torch.int16, torch.int32, torch.int64][j % 3])
+                try:
+                    yi = T.pytorch_preemphasize(xi, coeff).to(torch.float64).numpy()
+                    refi = _ref_preemph(xi.numpy().astype(np.float64), coeff)
+                    rec.ev()
+                    rec.count("torch_preemph_integer_tensors")
+                    if yi.shape != refi.shape or not np.all(np.abs(yi - refi) <= 1.0 + 1e-6 * np.abs(refi)):
+                        mon.v("pytorch_preemphasize(%s len %d, coeff %r) is not the recurrence to within one unit" % (xi.dtype, n, coeff), check="torch_preemph", op="torch_preemph",
+                              shape=[n], coeff=coeff)
+                except Exception as e:
+                    rec.count("torch_preemph_integer_tensor_refused")
             c2 = float(np.exp(rng.uniform(-3, 2)))
             s = int(rng.integers(0, 2 ** 31 - 1))
             xt = torch.tensor(x)
